@@ -1,7 +1,7 @@
 #pragma once
 #include <stdint.h>
 // C19 — observers and time stamps. Shared between the halves.
-enum { C19_NEW_OBSERVABLE = 0, C19_NEW_OBSERVER, C19_NOTIFY, C19_POLL, C19_DEL_OBSERVER, C19_DEL_OBSERVABLE, C19_NOBS_OPS };
+enum { C19_NEW_OBSERVABLE = 0, C19_NEW_OBSERVER, C19_NOTIFY, C19_POLL, C19_DEL_OBSERVER, C19_DEL_OBSERVABLE, C19_COPY_OBSERVER, C19_COPY_OBSERVABLE, C19_ASSIGN_OBSERVER, C19_ASSIGN_OBSERVABLE, C19_NOBS_OPS };  // COPY_*: slot a is created as a copy of slot b; ASSIGN_*: slot a = slot b
 enum { C19_S_FRESH = 0, C19_S_RENEW, C19_S_COPY, C19_S_MOVE, C19_S_ASSIGN, C19_S_MOVE_ASSIGN, C19_S_RENEW_MANY, C19_S_NOPS };
 struct C19Op
 {
